@@ -9,7 +9,10 @@ K   : Lean model (PharmpyModel/C17/{Graph,Model,Sched}.lean) vs the real
 Mon : the property statement on the real code: result == sequential topological evaluation
       with (static inputs, predecessor results in entering order), every task called exactly
       once and after its predecessors, same result under every scheduler; every builder
-      operation yields exactly the declared task and edge sets.
+      operation yields exactly the declared task and edge sets; output_tasks/input_tasks == tasks without
+      successors/predecessors whenever they are read; the final workflow == the independent reference
+      composition of the whole history (declared_after applied to the declared state), and its execution
+      (result, per-task call counts) == the evaluation of that declared graph.
 """
 from __future__ import annotations
 
@@ -17,6 +20,7 @@ import os
 import random
 
 ID = "C17"
+CTX_BASE = 100000     # ids of Task objects created by insert_context inside a builder history
 DRIVER = "drv_c17"
 LEAN_TARGETS = ["PharmpyProofs.C17.Properties", "drv_c17"]
 PROPERTIES = ["PharmpyProofs/C17/Properties.lean"]
@@ -25,7 +29,9 @@ TIME_LIMIT = {"quick": 900, "thorough": 3000}
 CASE_CPU_LIMIT = 30
 RULE = ("seeded programs of builder operations (new/tasks=, add_task with 0-3 predecessors in random order, "
         "replace_task, insert_workflow with None/explicit predecessors incl. N:N, 1:N, N:1, N:M, "
-        "+, Workflow()/WorkflowBuilder() copies) building a workflow of <= 12 tasks (quick) / <= 30 (thorough), "
+        "+, Workflow()/WorkflowBuilder() copies, reading input_tasks/output_tasks between steps, "
+        "add_task(t, predecessors=wb.output_tasks), insert_context on the builder mid-history, and the history "
+        "'read outputs; replace an output task / insert_context; compose again') building a workflow of <= 12 tasks (quick) / <= 30 (thorough), "
         "usually closed with one sink; task i returns the term 't<i>(args)' so the result spells the whole "
         "evaluation; ~35% of tasks take `context`; a few static inputs are dask graph literals ('results', "
         "(callable, ...), lists of those). Each workflow is executed through execute_workflow with "
@@ -124,8 +130,26 @@ def gen_case(rng: random.Random, tier: str):
         ops.append(["new", 0])
     while len(tasks) < target:
         cur = members[0]
+        if cur and rng.random() < 0.08:
+            # history "observe the outputs, replace a (probable) output task, compose again"
+            ops.append(["read", 0])
+            if not wild and rng.random() < 0.3:
+                ops.append(["ctx", 0])
+            else:
+                new = new_task()
+                ops.append(["replace", 0, cur[-1], new])
+                cur = members[0] = cur[:-1] + [new]
+            if rng.random() < 0.5:
+                b = build_sub(rng.randint(1, 2))
+                ops.append(["insert", 0, b, None])
+                members[0] = cur + members[b]
+            else:
+                t = new_task()
+                ops.append(["addouts", 0, t])
+                members[0] = cur + [t]
+            continue
         r = rng.random()
-        if r < 0.45 or not cur:
+        if r < 0.40 or not cur:
             t = new_task()
             ps = pick_preds(cur)
             if wild and rng.random() < 0.3:
@@ -135,7 +159,7 @@ def gen_case(rng: random.Random, tier: str):
             else:
                 ops.append(["add", 0, t, ps if (ps or rng.random() < 0.5) else None])
             members[0] = cur + [t] + [p for p in ps if p not in cur and p != t]
-        elif r < 0.70:
+        elif r < 0.62:
             size = rng.randint(1, max(1, min(4, target - len(tasks))))
             b = build_sub(size)
             if rng.random() < 0.4:
@@ -149,7 +173,7 @@ def gen_case(rng: random.Random, tier: str):
                 ps = rng.sample(cur, rng.randint(1, min(3, len(cur))))
             ops.append(["insert", 0, b, ps])
             members[0] = cur + members[b]
-        elif r < 0.80:
+        elif r < 0.72:
             old = rng.choice(cur)
             if wild and rng.random() < 0.5:
                 new = rng.randrange(len(tasks))
@@ -157,19 +181,27 @@ def gen_case(rng: random.Random, tier: str):
                 new = new_task()
             ops.append(["replace", 0, old, new])
             members[0] = [new if x == old else x for x in cur]
-        elif r < 0.88:
+        elif r < 0.79:
             size = rng.randint(1, max(1, min(3, target - len(tasks))))
             b = build_sub(size)
             ops.append(["plus", 0, 0, b])
             members[0] = cur + members[b]
-        elif r < 0.94:
+        elif r < 0.83:
             ops.append(["freeze", 0, 0])
-        else:
+        elif r < 0.87:
             # more edges into an existing task, from tasks that entered earlier (keeps a DAG)
             j = rng.randrange(len(cur))
             pool = cur[:j] if not wild else cur
             if pool:
                 ops.append(["add", 0, cur[j], pick_preds(pool, 2) or None])
+        elif r < 0.92:
+            ops.append(["read", rng.randrange(nb[0])])     # look at input_tasks / output_tasks
+        elif r < 0.97 or wild:
+            t = new_task()
+            ops.append(["addouts", 0, t])                  # add_task(t, predecessors=wb.output_tasks)
+            members[0] = cur + [t]
+        else:
+            ops.append(["ctx", 0])                         # insert_context on the builder, mid-history
     closes = rng.random() < 0.93
     scheds = ["threaded", "sync", f"rand:{rng.randrange(1 << 30)}", f"rand:{rng.randrange(1 << 30)}"]
     if rng.random() < 0.25:
@@ -206,6 +238,13 @@ def corpus_cases():
         dict(base, tasks=[[i, False, [S(f"v{i}")] if i < 3 else []] for i in range(7)],
              ops=[["newtasks", 0, [0, 1, 2]], ["newtasks", 1, [3, 4, 5]], ["insert", 0, 1, None],
                   ["newtasks", 2, [6]], ["insert", 0, 2, None]]),
+        # observe outputs, replace the output task, compose with "all output tasks", join the outputs
+        dict(base, tasks=[[0, False, [S("1")]], [1, False, []], [2, False, []], [3, False, []], [4, False, []], [5, False, []]],
+             ops=[["new", 0], ["add", 0, 0, None], ["add", 0, 1, 0], ["read", 0], ["replace", 0, 1, 2],
+                  ["new", 1], ["add", 1, 3, None], ["add", 1, 4, [3]], ["insert", 0, 1, None], ["read", 0], ["addouts", 0, 5]]),
+        # the same with insert_context doing the replacement
+        dict(base, tasks=[[0, False, []], [1, True, []], [2, False, []]],
+             ops=[["new", 0], ["add", 0, 0, None], ["add", 0, 1, 0], ["read", 0], ["ctx", 0], ["addouts", 0, 2], ["read", 0]]),
         # two sinks: documented refusal
         dict(base, tasks=[[0, False, []], [1, False, []]], ops=[["newtasks", 0, [0, 1]]]),
     ]
@@ -293,7 +332,7 @@ class World:
 
     def py_atom(self, a):
         if a == "ctx":
-            raise ValueError("ctx is not a user-level static input")
+            return self.ctx
         if a[0] == "s":
             return a[1]
         if a[0] == "call":
@@ -325,7 +364,9 @@ class World:
         self.ident[id(t)] = i
 
     def tid(self, t):
-        return self.ident[id(t)]
+        """id of a Task object; an object the harness never saw is shown by name (then K/monitors disagree, no crash)"""
+        i = self.ident.get(id(t))
+        return i if i is not None else "?" + str(getattr(t, "name", t))
 
     def wire_atom(self, x):
         if isinstance(x, str):
@@ -351,13 +392,21 @@ def name_id(task):
 
 
 def graph_dump(wb, ident):
-    """Observable state through the public API (tasks, get_successors, get_predecessors, input/output_tasks)."""
+    """Observable state through tasks / get_successors / get_predecessors only (input_tasks and
+    output_tasks are read by the explicit `read` operation, so that reading is part of the history)."""
     ts = wb.tasks
     return [[str(ident(t)) for t in ts],
             [[str(ident(t)), [str(ident(s)) for s in wb.get_successors(t)]] for t in ts],
-            [[str(ident(t)), [str(ident(s)) for s in wb.get_predecessors(t)]] for t in ts],
-            [str(ident(t)) for t in wb.input_tasks],
-            [str(ident(t)) for t in wb.output_tasks]]
+            [[str(ident(t)), [str(ident(s)) for s in wb.get_predecessors(t)]] for t in ts]]
+
+
+def sinks_of(dump):
+    """Independent reference: tasks without successors / predecessors, in node order."""
+    return [u for u, vs in dump[1] if not vs]
+
+
+def sources_of(dump):
+    return [v for v, us in dump[2] if not us]
 
 
 def sets_of(dump):
@@ -373,32 +422,58 @@ def as_list(ps):
     return ps if isinstance(ps, list) else [ps]
 
 
-def expected_sets(op, before, other, real_ins=None):
-    """Declared task and edge sets after a builder operation (the monitor's oracle).
-    before/other: (nodes, edges) as sets of strings. Returns (nodes, edges, refusal)."""
+def order_list(nodes, order):
+    return [x for x in order if x in nodes] + sorted(set(nodes) - set(order))
+
+
+def declared_after(op, bn, be, on, oe, border, oorder, ren):
+    """The independent reference composition: task set and edge set a builder operation declares, from the
+    sets before (bn, be), the other workflow's sets (on, oe), node orders (only used to list sinks/sources in
+    node order for the N:N pairing) and, for insert_context, the renaming old -> new.
+    Returns (nodes, edges, refused, tag)."""
     kind = op[0]
-    n, e = set(before[0]), set(before[1])
-    if kind in ("new",):
-        return set(), set(), False
+    n, e = set(bn), set(be)
+    if kind == "new":
+        return set(), set(), False, None
     if kind == "newtasks":
-        return {str(t) for t in op[2]}, set(), False
+        return {str(t) for t in op[2]}, set(), False, None
     if kind == "add":
         t = str(op[2])
         ps = as_list(op[3]) or []
-        return n | {t} | {str(p) for p in ps}, e | {(str(p), t) for p in ps}, False
+        return n | {t} | {str(p) for p in ps}, e | {(str(p), t) for p in ps}, False, None
+    if kind == "addouts":
+        t = str(op[2])
+        has_succ = {u for u, _ in e}
+        return n | {t}, e | {(p, t) for p in n if p not in has_succ}, False, None
+    if kind in ("read", "freeze"):
+        return n, e, False, None
     if kind == "replace":
         o, w = str(op[2]), str(op[3])
         if o not in n:
-            return n, e, False
+            return n, e, False, None
         r = lambda x: w if x == o else x
-        return {r(x) for x in n}, {(r(u), r(v)) for u, v in e}, False
-    if kind in ("plus",):
-        return n | other[0], e | other[1], False
-    if kind == "freeze":
-        return n, e, False
+        return {r(x) for x in n}, {(r(u), r(v)) for u, v in e}, False, None
+    if kind == "ctx":
+        r = lambda x: ren.get(x, x)
+        return {r(x) for x in n}, {(r(u), r(v)) for u, v in e}, False, None
+    if kind == "plus":
+        return n | set(on), e | set(oe), False, None
     if kind == "insert":
-        on, oe = other
-        return n | on, e | oe, None       # connecting edges are added by the caller (needs orders)
+        # "If None all output tasks will be found and used as predecessors": the tasks without successors
+        has_succ = {u for u, _ in e}
+        has_pred = {v for _, v in oe}
+        outs = [str(p) for p in as_list(op[3])] if op[3] is not None else \
+            [x for x in order_list(n, border) if x not in has_succ]
+        ins = [x for x in order_list(on, oorder) if x not in has_pred]
+        if len(ins) == len(outs):
+            conn, tag = {(o, i) for i, o in zip(ins, outs)}, "N:N"
+        elif len(ins) == 1:
+            conn, tag = {(o, ins[0]) for o in outs}, "N:1"
+        elif len(outs) == 1:
+            conn, tag = {(outs[0], i) for i in ins}, "1:N"
+        else:
+            return n, e, True, f"{len(outs)}:{len(ins)}"
+        return n | set(on) | {x for c in conn for x in c}, e | set(oe) | conn, False, tag
     raise ValueError(kind)
 
 
@@ -513,10 +588,42 @@ def _run_case(case, drv):
     tasks = [list(t) for t in case["tasks"]]
     case_tasks = {"tasks": tasks}
     world = World(case_tasks)
+    world.ctx = NullContext()
     ident = world.tid
     builders = {}
-    ops = [list(op) for op in case["ops"]]
+    alias = {}                   # builder -> {task id: id of the task insert_context put in its place}
+    fresh = [CTX_BASE]           # ids of the tasks insert_context creates mid-history
+    extra = {}                   # id -> [id, takes_ctx, static, name] of those tasks
+    ops = []                     # the operations as performed (ids resolved), sent to the driver
     real_dumps = []
+
+    def spec_of(i):
+        return extra[i] if i in extra else world.spec[i]
+
+    def nm(i):
+        """name (= id of the original user task) of a task id"""
+        return extra[i][3] if i in extra else i
+
+    def resolve(b, x):
+        m = alias.get(b, {})
+        while x in m:
+            x = m[x]
+        return x
+
+    def resolved(op):
+        kind, b = op[0], op[1]
+        r = lambda x: resolve(b, x)
+        if kind == "add":
+            ps = op[3]
+            return [kind, b, r(op[2]), [r(p) for p in ps] if isinstance(ps, list) else (None if ps is None else r(ps))]
+        if kind == "replace":
+            return [kind, b, r(op[2]), op[3]]
+        if kind == "insert":
+            ps = op[3]
+            return [kind, b, op[2], [r(p) for p in ps] if isinstance(ps, list) else (None if ps is None else r(ps))]
+        if kind == "ctx":
+            return [kind, b, fresh[0]]
+        return list(op)
 
     def apply(op):
         kind = op[0]
@@ -532,6 +639,9 @@ def _run_case(case, drv):
             elif ps is not None:
                 ps = world.task[ps]
             builders[op[1]].add_task(world.task[op[2]], predecessors=ps)
+        elif kind == "addouts":
+            wb_ = builders[op[1]]
+            wb_.add_task(world.task[op[2]], predecessors=wb_.output_tasks)
         elif kind == "replace":
             builders[op[1]].replace_task(world.task[op[2]], world.task[op[3]])
         elif kind == "insert":
@@ -550,53 +660,97 @@ def _run_case(case, drv):
             builders[op[1]] = WorkflowBuilder(Workflow(builders[op[2]]))
         elif kind == "plus":
             builders[op[1]] = builders[op[2]] + builders[op[3]]
+        elif kind == "ctx":
+            insert_context(builders[op[1]], world.ctx)
+        elif kind == "read":
+            pass
         else:
             raise ValueError(f"bad op {op}")
         return err
 
-    def monitor_op(op, before, other, before_dump, other_dump, after_dump, err):
+    def register_ctx_tasks(op, before_dump):
+        """After insert_context on a builder: give ids to the Task objects it created, in node order, matching
+        them to the declared replacements (same name and function, task_input == (context, *old input))."""
+        b = op[1]
+        olds = [int(x) for x in before_dump[0] if not x.startswith("?") and spec_of(int(x))[1]]
+        want = {}
+        for o in olds:
+            want.setdefault(nm(o), []).append(o)
+        for t in builders[b].tasks:
+            if id(t) in world.ident:
+                continue
+            cands = want.get(name_id(t), [])
+            o = cands.pop(0) if cands else None
+            new = fresh[0]
+            fresh[0] += 1
+            world.ident[id(t)] = new
+            world.task[new] = t
+            if o is None:
+                extra[new] = [new, False, [], name_id(t)]
+                mon.append({"cls": "insert-context", "what": f"{op}: unexpected new task {t.name} with input {t.task_input!r}"})
+                continue
+            ot = world.task[o]
+            extra[new] = [new, True, ["ctx"] + list(spec_of(o)[2]), nm(o)]
+            alias.setdefault(b, {})[o] = new
+            if t.function is not ot.function or len(t.task_input) != len(ot.task_input) + 1 or \
+                    t.task_input[0] is not world.ctx or any(x is not y and x != y for x, y in zip(t.task_input[1:], ot.task_input)):
+                mon.append({"cls": "insert-context", "what": f"{op}: task {t.name} has input {t.task_input!r}, declared "
+                                                             f"(context, *{ot.task_input!r})"})
+        return olds
+
+    OPCLS = {"add": "builder-add-task", "addouts": "builder-add-task", "newtasks": "builder-add-task",
+             "replace": "builder-replace-task", "insert": "builder-insert-workflow", "plus": "builder-plus",
+             "freeze": "builder-copy", "new": "builder-add-task", "read": "builder-read-changes-graph",
+             "ctx": "insert-context"}
+    declared = {}                # builder -> (tasks, edges): the reference composition of the whole history
+
+    def monitor_op(op, before, other, before_dump, other_dump, after_dump, err, ren):
         kind = op[0]
         n, e, e_p = sets_of(after_dump)
         if e != e_p:
             mon.append({"cls": "builder-adjacency-inconsistent", "what": f"after {op}: successors and predecessors disagree"})
-        xn, xe, _ = expected_sets(op, before, other)
+        border = before_dump[0]
+        oorder = other_dump[0] if other_dump is not None else []
+        xn, xe, refused, tag = declared_after(op, before[0], before[1], other[0], other[1], border, oorder, ren)
         if kind == "insert":
-            outs = [str(p) for p in as_list(op[3])] if op[3] is not None else before_dump[4]
-            ins = other_dump[3]
-            if len(ins) == len(outs):
-                conn = {(o, i) for i, o in zip(ins, outs)}
-            elif len(ins) == 1:
-                conn = {(o, ins[0]) for o in outs}
-            elif len(outs) == 1:
-                conn = {(outs[0], i) for i in ins}
-            else:
-                conn = None
-            if conn is None:
-                if err is None:
-                    mon.append({"cls": "builder-insert-workflow", "what": f"{op}: N:M connection ({len(outs)}:{len(ins)}) accepted"})
-                elif (n, e) != (set(before[0]), set(before[1])):
-                    mon.append({"cls": "insert-refused-but-composed",
-                                "what": f"insert_workflow refused a {len(outs)}:{len(ins)} connection (ValueError) but the "
-                                        f"builder now holds {len(n)} tasks instead of {len(before[0])}"})
+            if refused:
                 tags.append("insert-refused")
+                if err is None:
+                    mon.append({"cls": "builder-insert-workflow", "what": f"{op}: N:M connection ({tag}) accepted"})
+                elif (n, e) != (xn, xe):
+                    mon.append({"cls": "insert-refused-but-composed",
+                                "what": f"insert_workflow refused a {tag} connection (ValueError) but the "
+                                        f"builder now holds {len(n)} tasks instead of {len(before[0])}"})
                 return
             if err is not None:
-                mon.append({"cls": "builder-insert-workflow", "what": f"{op}: {len(outs)}:{len(ins)} connection refused"})
+                mon.append({"cls": "builder-insert-workflow", "what": f"{op}: {tag} connection refused"})
                 return
-            xe = xe | conn
-            xn = xn | {x for c in conn for x in c}
-            tags.append("insert-" + ("N:N" if len(ins) == len(outs) else "N:1" if len(ins) == 1 else "1:N"))
+            tags.append("insert-" + tag)
         if (n, e) != (xn, xe):
-            cls = {"add": "builder-add-task", "newtasks": "builder-add-task", "replace": "builder-replace-task",
-                   "insert": "builder-insert-workflow", "plus": "builder-plus", "freeze": "builder-copy",
-                   "new": "builder-add-task"}[kind]
-            mon.append({"cls": cls, "what": f"after {op}: tasks {sorted(n)} edges {sorted(e)}; declared tasks "
-                                            f"{sorted(xn)} edges {sorted(xe)}"})
+            mon.append({"cls": OPCLS[kind], "what": f"after {op}: tasks {sorted(n)} edges {sorted(e)}; declared tasks "
+                                                    f"{sorted(xn)} edges {sorted(xe)}"})
+
+    def advance_declared(op, before_dump, other_dump, ren):
+        """the same reference semantics applied to the DECLARED state (not to what the code produced so far)"""
+        kind, b = op[0], op[1]
+        src = op[2] if kind in ("freeze", "plus") else b
+        dn, de = declared.get(src, (set(), set()))
+        on, oe = declared.get(op[3] if kind == "plus" else op[2], (set(), set())) if kind in ("plus", "insert") else (set(), set())
+        border = before_dump[0]
+        oorder = other_dump[0] if other_dump is not None else []
+        xn, xe, _, _ = declared_after(op, dn, de, on, oe, border, oorder, ren)
+        declared[b] = (xn, xe)
 
     def do(op):
+        op = resolved(op)
         b = op[1]
+        if op[0] in ("read", "ctx", "addouts", "add", "replace", "insert") and b not in builders:
+            return                                  # (shrunk cases) operation on a builder that does not exist
+        if op[0] in ("insert",) and op[2] not in builders:
+            return
+        ops.append(op)
         src = op[2] if op[0] == "freeze" else b
-        before_dump = graph_dump(builders[src], ident) if src in builders else [[], [], [], [], []]
+        before_dump = graph_dump(builders[src], ident) if src in builders else [[], [], []]
         other_dump = None
         if op[0] == "insert":
             other_dump = graph_dump(builders[op[2]], ident)
@@ -604,29 +758,51 @@ def _run_case(case, drv):
             before_dump = graph_dump(builders[op[2]], ident)
             other_dump = graph_dump(builders[op[3]], ident)
         err = apply(op)
+        ctx_olds = register_ctx_tasks(op, before_dump) if op[0] == "ctx" else None
+        if op[0] == "freeze":
+            alias[b] = dict(alias.get(src, {}))
+        elif op[0] in ("new", "newtasks"):
+            alias[b] = {}
+        elif op[0] == "plus":
+            alias[b] = dict(alias.get(op[2], {}))
         after = graph_dump(builders[b], ident)
         bs = sets_of(before_dump)[:2]
         os_ = sets_of(other_dump)[:2] if other_dump is not None else (set(), set())
-        monitor_op(op, bs, os_, before_dump, other_dump, after, err)
+        ren = {str(o): str(resolve(b, o)) for o in ctx_olds} if ctx_olds is not None else {}
+        monitor_op(op, bs, os_, before_dump, other_dump, after, err, ren)
+        advance_declared(op, before_dump, other_dump, ren)
+        if op[0] == "read":
+            # input_tasks / output_tasks are the tasks without predecessors / successors, in node order
+            ins = [str(ident(t)) for t in builders[b].input_tasks]
+            outs = [str(ident(t)) for t in builders[b].output_tasks]
+            if outs != sinks_of(after):
+                mon.append({"cls": "output-tasks-not-sinks", "what": f"output_tasks of builder {b} is {outs}; the tasks "
+                                                                     f"without successors are {sinks_of(after)}"})
+            if ins != sources_of(after):
+                mon.append({"cls": "input-tasks-not-sources", "what": f"input_tasks of builder {b} is {ins}; the tasks "
+                                                                     f"without predecessors are {sources_of(after)}"})
+            after = after + [ins, outs]
         real_dumps.append(["err", "ValueError", after] if err else after)
         tags.append("op:" + op[0])
 
-    for op in ops:
+    for op in case["ops"]:
         do(op)
 
-    # close with one sink (decided on the real graph, recorded so that the driver sees the same op)
+    # close with one sink (decided on the graph itself: the tasks without successors)
     final = case["final"]
+    if final not in builders:
+        do(["new", final])
     wb = builders[final]
-    if case.get("close") and len(wb.output_tasks) != 1:
-        outs = [ident(t) for t in wb.output_tasks]
+    cur_sinks = [int(x) for x in sinks_of(graph_dump(wb, ident)) if not x.startswith("?")]
+    if case.get("close") and len(cur_sinks) != 1:
+        outs = cur_sinks
         random.Random(case["close_shuffle"]).shuffle(outs)
         i = max([t[0] for t in tasks] + [-1]) + 1
         tasks.append([i, bool(case.get("close_ctx")), [["s", "z"]]])
         world.spec[i] = tasks[-1]
         world._make(i, tasks[-1][1], tasks[-1][2])
-        op = ["add", final, i, outs]
-        ops.append(op)
-        do(op)
+        do(["add", final, i, outs])
+    do(["read", final])
 
     wt, wo = S(wire_tasks(case_tasks)), S(wire_ops(ops))
     if drv is not None:
@@ -637,13 +813,13 @@ def _run_case(case, drv):
             for j, (md, rd) in enumerate(zip(m, real_dumps)):
                 if md and md[0] == "err":
                     mdump, wf_ok = md[2], md[2][5]
-                    md_cmp = ["err", "ValueError", mdump[:5]]
+                    md_cmp = ["err", "ValueError", mdump[:len(rd[2])]]
                 elif md and md[0] == "copy-literal-differs":
                     k.append(f"op #{j} {ops[j]}: model's closed-form copy differs from the literal networkx copy")
                     continue
                 else:
                     wf_ok = md[5]
-                    md_cmp = md[:5]
+                    md_cmp = md[:len(rd)]
                 if md_cmp != rd:
                     k.append(f"op #{j} {ops[j]}: model {md_cmp} code {rd}")
                     break
@@ -652,11 +828,26 @@ def _run_case(case, drv):
 
     # ---------------- execution
     wf = Workflow(wb)
-    wnodes = [ident(t) for t in wf.tasks]
-    wpreds = {ident(t): [ident(p) for p in wf.get_predecessors(t)] for t in wf.tasks}
+    real_dump = graph_dump(wf, ident)
+    rn, re_, _ = sets_of(real_dump)
+    dn, de = declared.get(final, (set(), set()))
+    # the reference is the DECLARED composition (tasks and edges of the whole history), listed in the order in
+    # which the tasks entered the real workflow; when the code composed exactly that, it is the real graph
+    if (rn, re_) != (dn, de):
+        mon.append({"cls": "composed-workflow-differs-from-declared",
+                    "what": f"after the {len(ops)} builder operations the workflow has tasks {sorted(rn)} edges {sorted(re_)}; "
+                            f"the operations declare tasks {sorted(dn)} edges {sorted(de)}"})
+    wnodes = [int(x) for x in order_list(dn, real_dump[0])]
+    wpreds = {t: [int(u) for u, v in de if v == str(t)] for t in wnodes}
     order = topo_order(wnodes, wpreds)
-    sinks = [ident(t) for t in wf.output_tasks]
-    spec = {t[0]: t for t in tasks}
+    has_succ = {int(u) for u, _ in de}
+    sinks = [t for t in wnodes if t not in has_succ]
+    real_sinks = sinks_of(real_dump)
+
+    class _Spec(dict):
+        def __missing__(self, i):
+            return spec_of(i)
+    spec = _Spec()
     tags.append(f"n={len(wnodes)}")
     tags.append(f"sinks={min(len(sinks), 3)}")
     if order is None:
@@ -682,13 +873,13 @@ def _run_case(case, drv):
             for t in order:
                 args = (["ctx"] if spec[t][1] else []) + [world.literal(s) for s in spec[t][2]]
                 args += [val[p] for p in sorted(wpreds[t], key=key)]
-                val[t] = f"t{t}(" + ",".join(args) + ")"
+                val[t] = f"t{nm(t)}(" + ",".join(args) + ")"
             return val[sinks[0]]
         ref = seq_eval(lambda p: pos[p])
         # what the unchanged code realises (theorem pred_order_after_relabel): context-taking tasks stably last
         ref_realised = seq_eval(lambda p: (bool(spec[p][1]), pos[p]))
 
-    ctx = NullContext()
+    ctx = world.ctx
     results = {}
     model_exec = None
     if drv is not None:
@@ -706,6 +897,8 @@ def _run_case(case, drv):
             with patched_scheduler(sched):
                 res = ["ok", execute_workflow(wf, dispatcher=disp, context=ctx)]
         except Exception as e:  # noqa: an exception of the real code is an observation, not a harness error
+            if type(e).__name__ in ("CaseTimeout", "Timeout"):
+                raise                                # the runner's own watchdog signals: never an observation
             if isinstance(e, ValueError) and "Workflow can only have one output task" in str(e):
                 res = ["err", "ValueError"]
             elif isinstance(e, RuntimeError) and "Cycle detected" in str(e):
@@ -718,8 +911,11 @@ def _run_case(case, drv):
         log = list(world.log)
         # ---- monitors on this run
         if len(sinks) != 1:
-            if res != ["err", "ValueError"]:
-                mon.append({"cls": "sink-count-not-refused", "what": f"{len(sinks)} output tasks but execute_workflow gave {res}"})
+            if res != ["err", "ValueError"] and len(real_sinks) != 1:
+                mon.append({"cls": "sink-count-not-refused", "what": f"{len(real_sinks)} output tasks but execute_workflow gave {res}"})
+            elif res != ["err", "ValueError"]:
+                mon.append({"cls": "composed-workflow-differs-from-declared",
+                            "what": f"[{sched}] the declared workflow has {len(sinks)} output tasks (refusal expected), execute_workflow gave {res}"})
         elif order is None:
             tags.append("exec-cyclic:" + res[0])
         else:
@@ -731,13 +927,14 @@ def _run_case(case, drv):
                 mon.append({"cls": cls, "what": f"[{sched}] execute_workflow gave {res}, sequential topological "
                                                 f"evaluation gives {ref!r}"})
             if res[0] == "ok":
-                counts = {t: log.count(t) for t in wnodes}
+                counts = {nm(t): log.count(nm(t)) for t in wnodes}
                 if any(c != 1 for c in counts.values()) or len(log) != len(wnodes):
-                    mon.append({"cls": "call-count", "what": f"[{sched}] calls per task {counts}, log {log}"})
+                    mon.append({"cls": "call-count", "what": f"[{sched}] calls per declared task {counts}, call log {log} "
+                                                             f"(every declared task exactly once, nothing else)"})
                 at = {t: j for j, t in enumerate(log)}
                 for t in wnodes:
-                    if any(at.get(p, 1 << 30) > at.get(t, -1) for p in wpreds[t]) and t in at:
-                        mon.append({"cls": "ran-before-predecessor", "what": f"[{sched}] task {t} ran at {at[t]} before a predecessor; log {log}"})
+                    if any(at.get(nm(p), 1 << 30) > at.get(nm(t), -1) for p in wpreds[t]) and nm(t) in at:
+                        mon.append({"cls": "ran-before-predecessor", "what": f"[{sched}] task {nm(t)} ran at {at[nm(t)]} before a predecessor; log {log}"})
                         break
                 if not haz and world.glog:
                     mon.append({"cls": "call-count", "what": "a callable that is no task was called"})
@@ -753,11 +950,11 @@ def _run_case(case, drv):
                 e_preds = [[str(name_id(t)), [str(name_id(p)) for p in ewf.get_predecessors(t)]] for t in ewf.tasks]
                 if e_nodes != m_nodes or e_preds != m_preds:
                     k.append(f"executed workflow: model nodes {m_nodes} preds {m_preds}; code nodes {e_nodes} preds {e_preds}")
-                if len(sinks) == 1:
+                if len(real_sinks) == 1:
                     code_dict = canon_dict(ewf.as_dask_dict(), ewf, world)
                     if m_dict[0] != "ok" or sorted(m_dict[1:], key=repr) != code_dict:
                         k.append(f"dask dict: model {m_dict} code {code_dict}")
-            if res[0] == "ok" and drv is not None and len(sinks) == 1:
+            if res[0] == "ok" and drv is not None and len(real_sinks) == 1:
                 rp = drv.ask(["replay", wt, wo, final, S(log)])
                 if rp != res:
                     k.append(f"[{sched}] observed firing order {log} replayed in the abstract scheduler: {rp}, code {res}")
@@ -770,7 +967,7 @@ def _run_case(case, drv):
         mon.append({"cls": "schedule-dependent", "what": f"results differ between schedulers: {results}"})
 
     # ---------------- the dict of the call_workflow path (WorkflowBuilder(wf); insert_context; Workflow(wb))
-    if len(sinks) == 1:
+    if len(real_sinks) == 1 and (rn, re_) == (dn, de):
         wb2 = WorkflowBuilder(wf)
         insert_context(wb2, ctx)
         wf2 = Workflow(wb2)
@@ -785,16 +982,19 @@ def _run_case(case, drv):
         if problems:
             mon.append({"cls": "dask-dict-unfaithful", "what": problems})
         # insert_context: exactly the context-taking tasks got the context prepended, same tasks and edges otherwise
-        n0 = {t: spec[t] for t in wnodes}
+        n0 = {nm(t): spec[t] for t in wnodes}
         for t in wf2.tasks:
             i = name_id(t)
+            if i not in n0:
+                mon.append({"cls": "insert-context", "what": f"task {i} appeared"})
+                break
             want = ([ctx] if n0[i][1] else []) + [world.py_static(s) for s in n0[i][2]]
             if list(t.task_input) != want:
                 mon.append({"cls": "insert-context", "what": f"task {i}: task_input {t.task_input!r}, declared {want!r}"})
                 break
         e2 = {(name_id(p), name_id(t)) for t in wf2.tasks for p in wf2.get_predecessors(t)}
-        e0 = {(p, t) for t in wnodes for p in wpreds[t]}
-        if e2 != e0 or sorted(name_id(t) for t in wf2.tasks) != sorted(wnodes):
+        e0 = {(nm(p), nm(t)) for t in wnodes for p in wpreds[t]}
+        if e2 != e0 or sorted(name_id(t) for t in wf2.tasks) != sorted(nm(t) for t in wnodes):
             mon.append({"cls": "insert-context", "what": f"edges after insert_context {sorted(e2)}, before {sorted(e0)}"})
     return {"k": k, "mon": mon, "tags": tags, "nontrivial": nontrivial}
 
